@@ -188,6 +188,15 @@ def fk_item(toks, i, d):
         acts[which] = ' '.join(words)
     return (cols, ref, rcols, acts.get('DELETE'), acts.get('UPDATE')), i
 
+def table_index_tail(toks, i, d, extra):
+    """what may follow the column list of a table-level PRIMARY KEY / UNIQUE constraint: PostgreSQL INCLUDE (cols); MySQL index options (USING ..)"""
+    while i < len(toks):
+        if d == 'postgres' and is_word(toks[i], 'INCLUDE') and i + 1 < len(toks) and toks[i+1][0] == 'group':
+            extra['include'] = tuple(idents(toks[i+1][1])); i += 2
+        elif d == 'mysql' and is_word(toks[i], 'USING') and i + 1 < len(toks): extra['using'] = str(toks[i+1][1]).upper(); i += 2
+        else: raise SkelError('unexpected text after a table constraint: %r' % (toks[i],))
+    return tuple(sorted(extra.items()))
+
 def table_item(toks, d):
     t0 = toks[0]
     if t0[0] == 'id': return column_item(toks, d)
@@ -200,7 +209,7 @@ def table_item(toks, d):
         if not is_word(toks[i+1], 'KEY'): raise SkelError('PRIMARY KEY expected')
         i += 2
         if toks[i][0] == 'id' and d == 'mysql': cname = toks[i][1]; i += 1
-        return ('index', 'PRIMARY', cname, index_cols(toks[i][1]))
+        return ('index', 'PRIMARY', cname, index_cols(toks[i][1]), table_index_tail(toks, i + 1, d, {}))
     if is_word(t, 'UNIQUE', 'KEY', 'INDEX', 'FULLTEXT'):
         kind = 'UNIQUE' if is_word(t, 'UNIQUE') else ('FULLTEXT' if is_word(t, 'FULLTEXT') else 'INDEX')
         i += 1
@@ -209,7 +218,11 @@ def table_item(toks, d):
             i += 1
         if kind != 'UNIQUE' and d != 'mysql': raise SkelError('inline KEY / INDEX in CREATE TABLE is MySQL syntax')
         if toks[i][0] == 'id' and d == 'mysql': cname = toks[i][1]; i += 1
-        return ('index', kind, cname, index_cols(toks[i][1]))
+        extra = {}
+        if kind == 'UNIQUE' and d == 'postgres' and is_word(toks[i], 'NULLS'):
+            if not (is_word(toks[i+1], 'NOT') and is_word(toks[i+2], 'DISTINCT')): raise SkelError('NULLS NOT DISTINCT expected')
+            extra['nnd'] = True; i += 3
+        return ('index', kind, cname, index_cols(toks[i][1]), table_index_tail(toks, i + 1, d, extra))
     if is_word(t, 'FOREIGN'):
         body, j = fk_item(toks, i, d)
         if j != len(toks): raise SkelError('text after a foreign key')
@@ -377,7 +390,11 @@ def e_fk(j, d, in_table):
     return (name, tuple(cols), ref, tuple(rcols), od, ou), frm
 
 def e_index_item(j, d, primary=False):
-    name = None; cols = []; kind = 'PRIMARY' if primary else 'INDEX'
+    name = None; cols = []; kind = 'PRIMARY' if primary else 'INDEX'; extra = {}
+    for c in j['calls']:
+        if c[0] == 'include' and d == 'postgres': extra['include'] = extra.get('include', ()) + (c[1],)
+        elif c[0] == 'nulls_not_distinct' and d == 'postgres': extra['nnd'] = True
+        elif c[0] == 'index_type' and d == 'mysql': extra['using'] = c[1].upper()
     for c in j['calls']:
         if c[0] == 'name': name = c[1]
         elif c[0] == 'col':
@@ -387,7 +404,7 @@ def e_index_item(j, d, primary=False):
         elif c[0] == 'primary': kind = 'PRIMARY'
         elif c[0] == 'unique' and kind != 'PRIMARY': kind = 'UNIQUE'
         elif c[0] == 'full_text' and kind == 'INDEX': kind = 'FULLTEXT'
-    return ('index', kind, name, tuple(cols))
+    return ('index', kind, name, tuple(cols), tuple(sorted(extra.items())))
 
 def e_specs(specs, d, in_create=True):
     """column specs in declaration order as the dialect shows them"""
